@@ -243,6 +243,31 @@ class WriterOracles(Oracles):
             return Adt(RESULT, 0, [Tup([])])
         if path.startswith("std::fs::File") and name == "create":
             return Adt(RESULT, 0, [Opaque("File", {"file"})])
+        if name == "flush" and tr.endswith("io::Write") and len(args) == 1:
+            return Adt(RESULT, 0, [Tup([])])
+        # a file opened through OpenOptions: an export must replace what the file held (File::create = write + create + truncate)
+        if path.startswith("std::fs::OpenOptions"):
+            if name == "new":
+                return Opaque("OpenOptions", {"open-options"}, {"flags": ()})
+            if name in ("read", "write", "append", "truncate", "create", "create_new") and len(args) == 2 and isinstance(args[0], Ref):
+                oo = it.read(args[0].cell, args[0].path)
+                b = args[1]
+                if isinstance(oo, Opaque) and "open-options" in oo.tags and isinstance(b, Int) and b.is_conc():
+                    fl = dict(oo.info.get("flags", ()))
+                    fl[name] = bool(b.val)
+                    it.write(args[0].cell, args[0].path, Opaque("OpenOptions", {"open-options"}, {"flags": tuple(sorted(fl.items()))}))
+                    return args[0]
+                raise Undecided("OpenOptions::%s with an undetermined flag" % name)
+            if name == "open" and args:
+                oo = recv(it, args[0])
+                if isinstance(oo, Opaque) and "open-options" in oo.tags:
+                    fl = dict(oo.info.get("flags", ()))
+                    if fl.get("append"):
+                        self.sink_problem = "the output file is opened in append mode: an existing file keeps its content and the export is added after it"
+                    elif not (fl.get("write") and (fl.get("truncate") or fl.get("create_new"))):
+                        self.sink_problem = ("the output file is opened with %s — without truncation: an existing longer file keeps its tail after the export "
+                                             "(stale lines follow the new ones)" % (", ".join(k for k, v in sorted(fl.items()) if v) or "no flags"))
+                    return Adt(RESULT, 0, [Opaque("File", {"file"})])
         if "BufWriter" in path and name == "new":
             return Opaque("BufWriter", {"file"})
         return NotImplemented
@@ -250,6 +275,7 @@ class WriterOracles(Oracles):
 
 class ExportOracles(WriterOracles):
     """a scripted graph: n nodes, explicit l/r edge lists"""
+    sink_problem = None
 
     def __init__(self, n, l_edges, r_edges, K=5):
         WriterOracles.__init__(self)
@@ -387,7 +413,7 @@ def adjacency_graphs(max_adj=3):
 def gfa_tables(F, rep, rule="C20.2"):
     line_s = re.compile(r"^S\t\d+\t[ACGT]+(\t\S.*)?$")
     line_l = re.compile(r"^L\t(\d+)\t([+-])\t(\d+)\t([+-])\t(\d+)M$")
-    for fname in ("write_gfa", "to_gfa_with_tags"):
+    for fname in ("write_gfa", "to_gfa", "to_gfa_with_tags"):
         try:
             body = pub_fn(F, fname)
         except Unsupported as e:
@@ -413,6 +439,8 @@ def gfa_tables(F, rep, rule="C20.2"):
             try:
                 if fname == "write_gfa":
                     it.call_body(body, [Ref(Cell(g, "graph")), Ref(Cell(Opaque("W", {"writer"}), "w"))])
+                elif fname == "to_gfa":
+                    it.call_body(body, [Ref(Cell(g, "graph")), Opaque("P", {"path"})])
                 else:
                     it.call_body(body, [Ref(Cell(g, "graph")), Opaque("P", {"path"}), Opaque("F", {"tag-fn"})])
             except (Undecided, Unsupported) as e:
@@ -420,6 +448,9 @@ def gfa_tables(F, rep, rule="C20.2"):
                 continue
             except Diverge as e:
                 problems.append("adjacencies %s: %s diverges: %s" % (adj, fname, e))
+                continue
+            if h.sink_problem:
+                problems.append(h.sink_problem)
                 continue
             text = "".join(h.out)
             if "\u0001" in text:
